@@ -47,7 +47,7 @@ RunBytes(start, n) == [i \in 1..n |-> ((start + i) % 255) + 1]
 InitLenA(pos) == IF pos <= 4 THEN {0, 1, 239, 240, 254, 255}
                  ELSE IF pos \in {5, 12} THEN {0, 255} ELSE IF inp[5] = 0 THEN {0} ELSE {(pos * 17) % 256}
 
-ArrA == {0, 1, 2, 3, 128, 255}
+ArrA == {0, 1, 2, 3, 64, 127, 128, 255}     \* 64, 127: a length whose final LEB128 byte has bit 6 set (unsigned, 7.6)
 
 Int24Others == {0, 90, 255}
 
@@ -96,7 +96,9 @@ ArrU32(le) == IF Len(inp) < 4 THEN [ok |-> FALSE, used |-> 0, items |-> <<>>]
                    ELSE PrefArr(d[1] + 256 * d[2], 4)
 ArrUleb == LET d == LebDec(inp, FALSE) IN
            IF ~d.ok THEN [ok |-> FALSE, used |-> 0, items |-> <<>>]
-           ELSE PrefArr(GroupsNat(d.val.g), d.used)      \* inputs are <= 5 bytes: the count is a Small
+           \* inputs are <= 5 bytes: a count with a non-zero fifth group (>= 2^28) exceeds any input, every other count is a Small
+           ELSE IF \E i \in 5..Len(d.val.g) : d.val.g[i] # 0 THEN [ok |-> FALSE, used |-> 0, items |-> <<>>]
+           ELSE PrefArr(GroupsNat(SubSeq(d.val.g, 1, Min({4, Len(d.val.g)}))), d.used)
 \* repeat-until-terminator, terminator excluded from the result but consumed
 Zs == {i \in 1..Len(inp) : inp[i] = 0}
 ArrUntil0 == IF Zs = {} THEN [ok |-> FALSE, used |-> 0, items |-> <<>>]
